@@ -87,7 +87,7 @@ func vpH_C04_merged() {
 	g := vpNewGen(0)
 	tplA, tplB, maxB := []int{2, 5, 7}, []int{2, 5}, 1
 	if vpThorough() {
-		tplA, tplB, maxB = vpMergeTemplates, vpMergeTemplates, 2
+		tplA, tplB, maxB = vpMergeTemplates, []int{2, 3, 5, 10}, 2
 	}
 	a := g.batch("A", 0, 2, tplA)
 	b := g.batch("B", 0, maxB, tplB)
